@@ -17,6 +17,7 @@ CONSTANTS Cfgs, W, MaxFaults, MaxReqs,
           SwallowReadErrors     \* a failing read falls through to generation (FALSE = broken design)
 Absent == [k |-> "absent", owner |-> "-"]
 Damaged == [k |-> "damaged", owner |-> "-"]
+\* @type: (Str) => {k: Str, owner: Str};
 Intact(c) == [k |-> "intact", owner |-> c]
 VARIABLES file, pc, req, out, loaded, wr, hist, faults, nreq
 cvars == <<file, pc, req, out, loaded, wr, hist, faults, nreq>>
@@ -30,13 +31,13 @@ Read == /\ pc = "read"
         /\ IF file[req].k = "intact"
              THEN out' = file[req].owner /\ loaded' = TRUE /\ pc' = "diff" /\ hist' = hist
              ELSE IF SwallowReadErrors THEN pc' = "gen" /\ UNCHANGED <<out, loaded, hist>>
-                  ELSE pc' = "idle" /\ hist' = Append(hist, <<req, "read_error">>) /\ UNCHANGED <<out, loaded>>
+                  ELSE pc' = "idle" /\ hist' = Append(hist, [req |-> req, kind |-> "read_error", out |-> "-", file |-> Absent]) /\ UNCHANGED <<out, loaded>>
         /\ UNCHANGED <<file, req, wr, faults, nreq>>
-Gen == /\ pc = "gen" /\ out' = req /\ loaded' = FALSE /\ pc' = "diff"
+GenData == /\ pc = "gen" /\ out' = req /\ loaded' = FALSE /\ pc' = "diff"
        /\ UNCHANGED <<file, req, wr, hist, faults, nreq>>
 Diff == /\ pc = "diff"
         /\ IF CheckDiff /\ out # req
-             THEN pc' = "idle" /\ hist' = Append(hist, <<req, "mismatch">>) /\ wr' = wr
+             THEN pc' = "idle" /\ hist' = Append(hist, [req |-> req, kind |-> "mismatch", out |-> "-", file |-> Absent]) /\ wr' = wr
              ELSE /\ hist' = hist
                   /\ IF loaded THEN pc' = "ret" /\ wr' = wr ELSE pc' = "save" /\ wr' = 0
         /\ UNCHANGED <<file, req, out, loaded, faults, nreq>>
@@ -44,7 +45,7 @@ Write == /\ pc = "save" /\ wr' = wr + 1
          /\ file' = [file EXCEPT ![req] = IF wr + 1 = W THEN Intact(out) ELSE Damaged]
          /\ pc' = (IF wr + 1 = W THEN "ret" ELSE "save")
          /\ UNCHANGED <<req, out, loaded, hist, faults, nreq>>
-Return == /\ pc = "ret" /\ hist' = Append(hist, <<req, "data", out, file[req]>>) /\ pc' = "idle"
+Return == /\ pc = "ret" /\ hist' = Append(hist, [req |-> req, kind |-> "data", out |-> out, file |-> file[req]]) /\ pc' = "idle"
           /\ UNCHANGED <<file, req, out, loaded, wr, faults, nreq>>
 Crash == /\ pc # "idle" /\ faults < MaxFaults /\ pc' = "idle" /\ faults' = faults + 1
          /\ UNCHANGED <<file, req, out, loaded, wr, hist, nreq>>
@@ -58,11 +59,17 @@ Delete(c) == /\ pc = "idle" /\ faults < MaxFaults /\ file[c].k # "absent" /\ fau
              /\ file' = [file EXCEPT ![c] = Absent] /\ UNCHANGED <<pc, req, out, loaded, wr, hist, nreq>>
 BeginAny == \E c \in Cfgs : Begin(c)
 FaultAny == Crash \/ (\E c \in Cfgs : Damage(c) \/ Delete(c)) \/ (\E c, d \in Cfgs : Foreign(c, d))
-Next == BeginAny \/ Exists \/ Read \/ Gen \/ Diff \/ Write \/ Return \/ FaultAny
+Next == BeginAny \/ Exists \/ Read \/ GenData \/ Diff \/ Write \/ Return \/ FaultAny
 Spec == Init /\ [][Next]_cvars
+\* strengthening that makes the C11 invariants inductive (discharged by Apalache for any number of requests and faults:
+\* spec/apalache/MC_Cache.tla): what is about to be saved / returned is the requested configuration's data, and when the
+\* request is about to return the file already holds it
+Strengthening == /\ (pc \in {"save", "ret"} => out = req)
+                 /\ (pc = "ret" => file[req] = Intact(req))
+                 /\ (pc = "diff" /\ loaded => file[req] = Intact(out))
 \* C11
-NeverWrongData == \A i \in 1..Len(hist) : hist[i][2] = "data" => hist[i][3] = hist[i][1]
-LoadableAfter == \A i \in 1..Len(hist) : hist[i][2] = "data" => hist[i][4] = Intact(hist[i][1])
-NoReadError == \A i \in 1..Len(hist) : hist[i][2] # "read_error"
+NeverWrongData == \A i \in DOMAIN hist : hist[i].kind = "data" => hist[i].out = hist[i].req
+LoadableAfter == \A i \in DOMAIN hist : hist[i].kind = "data" => hist[i].file = Intact(hist[i].req)
+NoReadError == \A i \in DOMAIN hist : hist[i].kind # "read_error"
 CfgsC12 == {"c1", "c2"}
 ==============================================================================
